@@ -71,6 +71,12 @@ def lit_axioms():
 
 str_cat = z3.Function('str_cat', Str, Str, Str)
 int_to_str = z3.Function('int_to_str', z3.IntSort(), Str)
+# a + b for names: uninterpreted (only equality of results is ever used; no associativity, no injectivity)
+str_concat = z3.Function('str_concat', Str, Str, Str)
+
+
+def _is_name(v):
+    return isinstance(v, str) or (is_z3(v) and v.sort() == Str)
 NaNstr = None  # np.nan.astype(str) == 'nan'
 
 
@@ -966,6 +972,8 @@ def binop(name, a, b):
     def f(x, y):
         if isinstance(x, (TS, TD)) or isinstance(y, (TS, TD)):
             return _time_bin(name, x, y)
+        if name == 'Add' and _is_name(x) and _is_name(y) and (is_z3(x) or is_z3(y)):
+            return str_concat(lift(x), lift(y))
         if x is None or y is None or isinstance(x, Opt) or isinstance(y, Opt):
             nx, vx = null_parts(x)
             ny, vy = null_parts(y)
